@@ -1,3 +1,4 @@
 pub mod version;
 pub mod range_ast;
+pub mod ranges;
 pub mod strings;
